@@ -16,6 +16,19 @@ NEVER_T = sys.maxsize
 YIELDS = 7   # same-instant hops a command waits for when the replay subject delivers through TestScheduler
 
 
+def pool_procs(tier: str) -> int:
+    """Replays cost ~0.3 ms each.  On an oversubscribed box a fork pool was measured 3x slower than one
+    process (30k runs: 7.7 s serial, 22 s with 8 processes at load 50 on 16 cores), so the pool is only used
+    for the thorough tier and only when the machine is not already saturated."""
+    import os
+    if tier == "quick":
+        return 1
+    try:
+        return 1 if os.getloadavg()[0] > 1.5 * (os.cpu_count() or 1) else 8
+    except OSError:
+        return 8
+
+
 class SrcErr(Exception):
     """a source's on_error value"""
 
